@@ -239,7 +239,12 @@ def solve(assertions, timeout_s: float = 5.0, want_model=False, cli=True):
     if not cli:
         STATS.note("z3py-5.1.0", time.time() - t0)
         return "unknown", "z3py-5.1.0", None
-    verdict, who = _run_cli(_smt2_text(assertions), int(max(1, timeout_s)))
+    text = _smt2_text(assertions)
+    verdict, who = _run_cli(text, int(max(1, timeout_s)))
+    if verdict == "unknown" and os.environ.get("PYVC_KEEP_SMT"):  # debugging aid: keep undecided queries
+        os.makedirs(os.environ["PYVC_KEEP_SMT"], exist_ok=True)
+        with open(os.path.join(os.environ["PYVC_KEEP_SMT"], "q%d_%d.smt2" % (os.getpid(), STATS.calls)), "w") as f:
+            f.write("(set-logic ALL)\n" + text)
     STATS.note(who, time.time() - t0)
     model = None
     if verdict == "sat" and want_model:
@@ -709,7 +714,22 @@ class _Num(SV):
     __rand__ = __and__
 
     def __or__(self, o):
-        raise Unsupported("| on symbolic ints")
+        """a | b for non-negative ints: a fresh r with max(a, b) <= r <= a + b (true of bitwise or), and r == a + b when
+        a is syntactically t * 2^n and 0 <= b < 2^n (disjoint bits).  An over-approximation otherwise."""
+        if not isinstance(self, SInt) or not isinstance(o, (int, SInt)) or isinstance(o, bool):
+            raise Unsupported("| on non-int symbolic values")
+        a, b = self.term, num_term(o)
+        c = ctx()
+        r = z3.Int(c.fresh_name("bitor"))
+        nonneg = z3.And(a >= 0, b >= 0)
+        c.assume(z3.Implies(nonneg, z3.And(r >= a, r >= b, r <= a + b)))
+        for x, y in ((a, b), (b, a)):
+            if z3.is_mul(x) and x.num_args() == 2:
+                for k in (0, 1):
+                    n = x.arg(k)
+                    if z3.is_int_value(n) and n.as_long() > 0 and n.as_long() & (n.as_long() - 1) == 0:
+                        c.assume(z3.Implies(z3.And(nonneg, y < n.as_long()), r == a + b))
+        return SInt(r)
 
     __ror__ = __or__
 
@@ -898,17 +918,39 @@ def slice_bounds(sl, n):
             return default
         if isinstance(v, int):
             if v >= 0:
-                return z3.If(n < v, n, z3.IntVal(v))
-            return z3.If(n + v < 0, z3.IntVal(0), n + v)
+                return z3.IntVal(v) if pc_entails(n >= v) else z3.If(n < v, n, z3.IntVal(v))
+            return n + v if pc_entails(n + v >= 0) else z3.If(n + v < 0, z3.IntVal(0), n + v)
         t = num_term(v)
         if known_nonneg(t):
+            if pc_entails(t <= n):
+                return t
             return z3.If(t > n, n, t)  # the negative-index branch of Python's slicing cannot apply
+        if pc_entails(z3.And(t >= 0, t <= n)):
+            return t
+        if pc_entails(z3.And(t < 0, t + n >= 0)):
+            return t + n
         return z3.If(t < 0, z3.If(t + n < 0, 0, t + n), z3.If(t > n, n, t))
 
     lo = clamp(sl.start, z3.IntVal(0))
     hi = clamp(sl.stop, n)
-    ln = z3.If(hi - lo < 0, 0, hi - lo)
+    ln = hi - lo if pc_entails(hi - lo >= 0) else z3.If(hi - lo < 0, 0, hi - lo)
     return z3.simplify(lo), z3.simplify(ln)
+
+
+def pc_entails(cond):
+    """Opt-in (Contract.pc_slices): is `cond` a consequence of the current path condition?  Used only to drop clamping
+    branches of slice bounds that cannot apply on this path (the simplified term is equal to the clamped one under the
+    path condition, so this is a sound rewriting); a timeout or unknown keeps the clamps."""
+    c = CTX
+    if c is None or not getattr(c, "pc_slices", False) or c.concrete:
+        return False
+    cond = z3.simplify(cond)
+    if z3.is_true(cond):
+        return True
+    if z3.is_false(cond):
+        return False
+    r, _ = _isolated_check(list(c.pc) + [z3.Not(cond)], 1.0, False)
+    return r == "unsat"
 
 
 class SSeq(SV):
@@ -1254,13 +1296,48 @@ class Snapshot:
 
 
 def snap_value(v):
-    if isinstance(v, (SList, SChunks)):
+    if isinstance(v, (SList, SChunks, SSet)):
         return v.copy()
     if isinstance(v, list):
         return [snap_value(e) for e in v]
     if isinstance(v, dict):
         return dict(v)
     return v
+
+
+class SSet:
+    """A finite set of integers: membership array plus a ghost cardinality that `add` keeps in step.
+    TRUSTED (finite-set arithmetic): a set all of whose members lie in [lo, hi) has at most hi - lo members;
+    `within` adds that instance (Finset.card_le_card into Finset.Ico, lemmas/Pigeonhole.lean)."""
+
+    def __init__(self, arr=None, card=0):
+        self.arr = arr if arr is not None else z3.K(z3.IntSort(), z3.BoolVal(False))
+        self.card = card
+
+    @staticmethod
+    def fresh(name):
+        return SSet(z3.Const(name, z3.ArraySort(z3.IntSort(), z3.BoolSort())), SInt(z3.Int(name + "!card")))
+
+    def copy(self):
+        return SSet(self.arr, self.card)
+
+    def contains(self, x):
+        return mk_bool(z3.simplify(z3.Select(self.arr, num_term(x))))
+
+    __contains__ = contains
+
+    def add(self, x):
+        t = num_term(x)
+        was = z3.Select(self.arr, t)
+        self.card = mk_num(z3.If(was, num_term(self.card), num_term(self.card) + 1))
+        self.arr = z3.Store(self.arr, t, z3.BoolVal(True))
+
+    def within(self, lo, hi):
+        y = z3.Int("sset!y")
+        inside = z3.ForAll([y], z3.Implies(z3.Select(self.arr, y), z3.And(y >= num_term(lo), y < num_term(hi))))
+        c = num_term(self.card)
+        ctx().assume(z3.Implies(inside, z3.And(c >= 0, c <= num_term(hi) - num_term(lo))))  # the trusted instance
+        return mk_bool(inside)
 
 
 class SChunks:
@@ -1522,6 +1599,18 @@ def all_bytes(s, pred):
     i = z3.Int(ctx().fresh_name("k"))
     body = as_bool_term(pred(SInt(s.term[i])))
     return SBool(z3.ForAll([i], z3.Implies(z3.And(i >= 0, i < z3.Length(s.term)), body)))
+
+
+def pointwise_eq(a, b, offset=0):
+    """a[offset : offset + len(b)] == b stated element by element (long enough, same element at every index).  By
+    extensionality this is the slice equality, but it lets the solvers reason about one index at a time."""
+    if not is_sym(a) and not is_sym(b) and not is_sym(offset):
+        return bytes(a[offset: offset + len(b)]) == bytes(b) if not isinstance(a, str) else a[offset: offset + len(b)] == b
+    kind = a.kind if isinstance(a, SSeq) else b.kind if isinstance(b, SSeq) else None
+    ta, tb, off = seq_term(a, kind), seq_term(b, kind), num_term(offset)
+    i = z3.Int(ctx().fresh_name("pw"))
+    return SBool(z3.And(off >= 0, z3.Length(ta) >= off + z3.Length(tb),
+                        z3.ForAll([i], z3.Implies(z3.And(i >= 0, i < z3.Length(tb)), ta[off + i] == tb[i]))))
 
 
 def model_value(model, kind, name):
